@@ -114,7 +114,7 @@ PURE_MODULES = {'bisect', 'math', 'operator', 'string'}
 def _has_internal(vals) -> bool:
     """Is one of the values an object of the folder's own representation (not a plain Python value a stdlib function understands)?"""
     for v in vals:
-        if isinstance(v, (DV, EV, ClsRef, Bound)):
+        if isinstance(v, (DV, EV, ClsRef, Bound, OrdInt)):
             return True
         if isinstance(v, tuple) and v and isinstance(v[0], str) and v[0] in ('lambda', 'closure', 'func', 'pyfunc', 'builtin', 'strmethod', 'pymodule', 'extern'):
             return True
@@ -144,7 +144,7 @@ _GEN_CACHE: Dict[int, bool] = {}
 
 def _own_nodes(fn):
     """Nodes of a function body excluding nested function / class definitions and lambdas."""
-    stack = list(fn.body)
+    stack = [n for n in fn.body if not isinstance(n, (ast.FunctionDef, ast.AsyncFunctionDef, ast.ClassDef))]
     while stack:
         n = stack.pop()
         yield n
@@ -152,6 +152,196 @@ def _own_nodes(fn):
             if isinstance(c, (ast.FunctionDef, ast.AsyncFunctionDef, ast.ClassDef, ast.Lambda)):
                 continue
             stack.append(c)
+
+
+class OrdInt:
+    """An integer of the subject of which only the ORDER is part of the abstraction: a representative of an order class of
+    values in [lo, hi].  Comparisons with other OrdInts, and with constants whose outcome is the same for every value of the
+    range, are evaluated; every other operation (arithmetic, hashing, formatting, indexing) would make the result depend on more
+    than the order and leaves the abstraction (Unsupported -> analysis error).  A result folded on one representative therefore
+    holds for every member of its order class by construction, not by a syntactic argument about how the value is used."""
+
+    __slots__ = ('v', 'lo', 'hi')
+
+    def __init__(self, v, lo, hi):
+        self.v, self.lo, self.hi = v, lo, hi
+
+    def _plain(self):
+        return self.v
+
+    def _cmp(self, o, op, sym):
+        if isinstance(o, OrdInt):
+            return op(self._plain(), o._plain())
+        if isinstance(o, bool) or not isinstance(o, int):
+            raise Unsupported(f'comparison of an order-abstract integer with {type(o).__name__}')
+        vals = {op(x, o) for x in range(self.lo, self.hi + 1)}
+        if len(vals) != 1:
+            raise Unsupported(f'`<value> {sym} {o}` is not decided by the order of the values in [{self.lo}, {self.hi}]')
+        return vals.pop()
+
+    def __lt__(self, o): return self._cmp(o, lambda a, b: a < b, '<')        # noqa: E704
+    def __le__(self, o): return self._cmp(o, lambda a, b: a <= b, '<=')      # noqa: E704
+    def __gt__(self, o): return self._cmp(o, lambda a, b: a > b, '>')        # noqa: E704
+    def __ge__(self, o): return self._cmp(o, lambda a, b: a >= b, '>=')      # noqa: E704
+    def __eq__(self, o): return self._cmp(o, lambda a, b: a == b, '==') if isinstance(o, (int, OrdInt)) else False   # noqa: E704
+    def __ne__(self, o): return self._cmp(o, lambda a, b: a != b, '!=') if isinstance(o, (int, OrdInt)) else True    # noqa: E704
+
+    def __bool__(self):
+        vals = {bool(x) for x in range(self.lo, self.hi + 1)}
+        if len(vals) != 1:
+            raise Unsupported('truth value of an order-abstract integer')
+        return vals.pop()
+
+    def __repr__(self):
+        return f'<ord {self._plain()}>'
+
+    def _no(self, *a, **k):
+        raise Unsupported('an order-abstract integer is used in an operation that depends on more than the order of the values')
+
+    __hash__ = __str__ = __format__ = __index__ = __int__ = __float__ = __neg__ = __pos__ = __abs__ = __invert__ = __round__ = _no
+    __add__ = __radd__ = __sub__ = __rsub__ = __mul__ = __rmul__ = __floordiv__ = __rfloordiv__ = __truediv__ = __rtruediv__ = _no
+    __mod__ = __rmod__ = __divmod__ = __rdivmod__ = __pow__ = __rpow__ = __lshift__ = __rlshift__ = __rshift__ = __rrshift__ = _no
+    __and__ = __rand__ = __or__ = __ror__ = __xor__ = __rxor__ = _no
+
+
+class _GenClose(BaseException):
+    """Thrown into a suspended generator of the subject when it is closed."""
+
+
+class LazyIter:
+    """An iterator of the subject (generator, iter(), itertools, generator expression): consumed one item at a time, as in Python."""
+    _sa_lazy = True
+
+    LIMIT = 2_000_000
+
+    def __init__(self, it):
+        self._it = it
+        self._n = 0
+
+    def __iter__(self):
+        return self
+
+    def __next__(self):
+        self._n += 1
+        if self._n > self.LIMIT:
+            raise Unsupported('an iterator of the subject produced more than 2 000 000 items')
+        return next(self._it)
+
+
+class _ThreadGen:
+    """A generator function of the subject, evaluated lazily.  The body runs on a helper thread that gets the baton from next() and
+    hands it back at each yield, so exactly one of generator and consumer runs at any time and their effects interleave as in Python
+    (an infinite generator consumed through islice()/next()/break terminates, a generator that blocks blocks its consumer)."""
+
+    def __init__(self, folder, run):
+        import threading
+        self.folder, self.run = folder, run
+        self.to_gen, self.to_cons = threading.Semaphore(0), threading.Semaphore(0)
+        self.state = 'new'          # new | live | done
+        self.item = None
+        self.exc: Optional[BaseException] = None
+        self.inject: Optional[BaseException] = None
+
+    def __iter__(self):
+        return self
+
+    def _resume(self):
+        import threading
+        saved = self.folder._cur_mod
+        if self.state == 'new':
+            self.state = 'live'
+            if threading.stack_size() < 64 * 1024 * 1024:
+                threading.stack_size(256 * 1024 * 1024)
+            threading.Thread(target=self._body, daemon=True).start()
+        else:
+            self.to_gen.release()
+        self.to_cons.acquire()
+        self.folder._cur_mod = saved
+        if self.exc is not None:
+            e, self.exc = self.exc, None
+            self.state = 'done'
+            raise e
+        if self.state == 'done':
+            raise StopIteration
+        return self.item
+
+    def __next__(self):
+        if self.state == 'done':
+            raise StopIteration
+        return self._resume()
+
+    def throw(self, exc):
+        if self.state != 'live':
+            self.state = 'done'
+            raise exc
+        self.inject = exc
+        return self._resume()
+
+    def close(self):
+        if self.state == 'live':
+            try:
+                self.throw(_GenClose())
+            except (_GenClose, StopIteration):
+                pass
+        self.state = 'done'
+
+    def _body(self):
+        try:
+            self.run(self)
+        except (_Return, _GenClose):
+            pass
+        except BaseException as e:  # noqa - re-raised in the consumer
+            self.exc = e
+        self.state = 'done'
+        self.to_cons.release()
+
+    # the sink the folded `yield` statements write to (called on the generator's thread)
+    def append(self, v):
+        self.item = v
+        self.to_cons.release()
+        self.to_gen.acquire()
+        if self.inject is not None:
+            e, self.inject = self.inject, None
+            raise e
+
+    def extend(self, it):
+        for v in it:
+            self.append(v)
+
+
+class _GenCM:
+    """contextlib.contextmanager around a generator function of the subject."""
+    _sa_native = True
+
+    def __init__(self, gen: _ThreadGen):
+        self.gen = gen
+
+    def __enter__(self):
+        try:
+            return next(self.gen)
+        except StopIteration:
+            raise FoldRaise('RuntimeError', "generator didn't yield")
+
+    def __exit__(self, kind, exc, tb):
+        if exc is None:
+            try:
+                next(self.gen)
+            except StopIteration:
+                return False
+            raise FoldRaise('RuntimeError', "generator didn't stop")
+        try:
+            self.gen.throw(exc)
+        except StopIteration:
+            return True
+        except FoldRaise as r:
+            if r is exc:
+                return False
+            raise
+        raise FoldRaise('RuntimeError', "generator didn't stop after throw()")
+
+
+def _is_iterish(v) -> bool:
+    return isinstance(v, LazyIter)
 
 
 class _ChainEnv(dict):
@@ -185,6 +375,7 @@ class Folder:
         self.class_stubs = {}  # class name -> factory(folder, args, kw): abstract stand-in for instances of that class
         self.external_attrs = {}   # attribute name -> callable(obj): attributes of base classes outside the package
         self.abstract_join = None  # callable(parts) for f-strings with abstract (native) parts
+        self.numpy = None          # sa.npstub when the rule wants numpy's 1-d arrays modelled (never the real numpy)
         self.steps = 0
         self.max_steps = max_steps
 
@@ -320,6 +511,12 @@ class Folder:
                 return ('pyfunc', getattr(_re, name))
             if name in ('IGNORECASE', 'I', 'MULTILINE', 'DOTALL'):
                 return getattr(_re, name)
+        if isinstance(obj, tuple) and len(obj) == 2 and obj[0] == 'pymodule' and obj[1] == 'numpy' and self.numpy is not None:
+            return self.numpy.attr(name)
+        if isinstance(obj, tuple) and len(obj) == 2 and obj[0] == 'pymodule' and obj[1] in ('itertools', 'functools'):
+            return self._stdlib_hof(obj[1], name)
+        if isinstance(obj, tuple) and len(obj) == 2 and obj[0] == 'pyfunc' and getattr(obj[1], '_sa_attrs', None) and name in obj[1]._sa_attrs:
+            return ('pyfunc', obj[1]._sa_attrs[name])
         if isinstance(obj, tuple) and len(obj) == 2 and obj[0] == 'pymodule' and obj[1].split('.')[0] in PURE_MODULES:
             import importlib
             try:
@@ -404,15 +601,14 @@ class Folder:
         if is_gen is None:
             is_gen = _GEN_CACHE[id(fn)] = any(isinstance(x, (ast.Yield, ast.YieldFrom)) for x in _own_nodes(fn))
         if is_gen:
-            # a generator function: evaluated eagerly, its yields collected in order (sound when the consumer does not interleave
-            # effects on state the generator reads - the consumers in this repository only iterate)
-            out: list = []
-            env['__yield__'] = out
-            try:
+            # a generator function: evaluated lazily, one item per next() (see _ThreadGen)
+            def run_body(sink, env=env):
+                env['__yield__'] = sink
                 self._block(fn.body, env, mod, ci)
-            except _Return:
-                pass
-            return out
+            g = _ThreadGen(self, run_body)
+            if any(d.split('.')[-1] == 'contextmanager' for d in (ast.unparse(x) for x in fn.decorator_list)):
+                return _GenCM(g)
+            return LazyIter(g)
         try:
             self._block(fn.body, env, mod, ci)
         except _Return as r:
@@ -464,7 +660,7 @@ class Folder:
             elif isinstance(st, ast.Expr) and isinstance(st.value, ast.YieldFrom):
                 if '__yield__' not in env:
                     raise Unsupported('yield outside a folded generator')
-                env['__yield__'].extend(list(self._eval(st.value.value, env, mod, ci)))
+                env['__yield__'].extend(self._eval(st.value.value, env, mod, ci))
             elif isinstance(st, ast.Expr):
                 if isinstance(st.value, ast.Constant):
                     continue
@@ -528,10 +724,10 @@ class Folder:
                     it = list(it)
                 if getattr(it, '_sa_native', False) and hasattr(it, '__iter__'):
                     it = list(it)
-                if not isinstance(it, (list, tuple, range, str)):
+                if not isinstance(it, (list, tuple, range, str, LazyIter)):
                     raise Unsupported('for over ' + type(it).__name__)
                 broke = False
-                for x in it:
+                for x in self._iterate(it):
                     self._assign(st.target, x, env)
                     try:
                         self._block(st.body, env, mod, ci)
@@ -548,6 +744,90 @@ class Folder:
                 raise _Continue()
             else:
                 raise Unsupported(f'statement {type(st).__name__} in folded function')
+
+    def _stdlib_hof(self, modname: str, name: str):
+        """itertools / functools: the real functions, over the subject's iterables (kept lazy) and callables."""
+        import functools
+        import itertools
+        real = getattr(itertools if modname == 'itertools' else functools, name, None)
+        if real is None:
+            raise Unsupported(f'{modname}.{name}')
+        fo = self
+
+        def seq(x):
+            if isinstance(x, ClsRef) and x.cls.is_enum:
+                return [EV(x.cls, n, v) for n, v in x.cls.enum_members().items()]
+            if isinstance(x, (set, frozenset)):
+                return sorted(x, key=repr)
+            if isinstance(x, LazyIter):
+                return fo._iterate(x)
+            if isinstance(x, (list, tuple, range, str, dict)):
+                return x
+            raise Unsupported(f'{modname}.{name} over {type(x).__name__}')
+
+        class K:
+            """A grouping / ordering key compared with the subject's own == and <."""
+            __slots__ = ('v',)
+
+            def __init__(self, v):
+                self.v = v
+
+            def __eq__(self, o):
+                return fo._truth(fo._cmp(ast.Eq(), self.v, o.v))
+
+            def __lt__(self, o):
+                return fo._truth(fo._cmp(ast.Lt(), self.v, o.v))
+
+            __hash__ = None
+
+        def pred(f):
+            g = fo._pycallable(f)
+            return (lambda x: fo._truth(x)) if g is None else (lambda *a: fo._truth(g(*a)))
+
+        def call(*a, **k):
+            if modname == 'functools':
+                if name == 'reduce':
+                    return functools.reduce(fo._pycallable(a[0]), seq(a[1]), *a[2:])
+                if name == 'partial':
+                    return ('pyfunc', functools.partial(fo._pycallable(a[0]), *a[1:], **k))
+                raise Unsupported(f'functools.{name}')
+            if name in ('count', 'repeat'):
+                return LazyIter(real(*a, **k))
+            if name in ('chain', 'zip_longest', 'product'):
+                return LazyIter(real(*[seq(x) for x in a], **k))
+            if name in ('islice', 'cycle', 'permutations', 'combinations', 'combinations_with_replacement', 'pairwise', 'batched'):
+                return LazyIter(real(seq(a[0]), *a[1:], **k))
+            if name in ('takewhile', 'dropwhile', 'filterfalse'):
+                return LazyIter(real(pred(a[0]), seq(a[1])))
+            if name == 'starmap':
+                return LazyIter(real(fo._pycallable(a[0]), seq(a[1])))
+            if name == 'accumulate':
+                f = a[1] if len(a) > 1 else k.get('func')
+                kk = {x: y for x, y in k.items() if x != 'func'}
+                return LazyIter(real(seq(a[0]), fo._pycallable(f), **kk) if f is not None else real(seq(a[0]), **kk))
+            if name == 'groupby':
+                key = a[1] if len(a) > 1 else k.get('key')
+                kf = fo._pycallable(key) if key is not None else (lambda x: x)
+                return LazyIter((kk.v, LazyIter(g)) for kk, g in real(seq(a[0]), lambda x: K(kf(x))))
+            raise Unsupported(f'itertools.{name}')
+        if name == 'chain':
+            call._sa_attrs = {'from_iterable': lambda xs: LazyIter(itertools.chain.from_iterable(seq(x) for x in seq(xs)))}
+        return ('pyfunc', call)
+
+    def _iterate(self, it):
+        """Iterate a value of the subject one item at a time (lazy iterators stay lazy; every item costs a step)."""
+        if not isinstance(it, LazyIter):
+            yield from it
+            return
+        while True:
+            self.steps += 1
+            if self.steps > self.max_steps:
+                raise Unsupported('step limit')
+            try:
+                x = next(it)
+            except StopIteration:
+                return
+            yield x
 
     def _with(self, st, i, env, mod, ci):
         if i == len(st.items):
@@ -594,13 +874,13 @@ class Folder:
                 and isinstance(env[t.value.id], DV) and id(env[t.value.id]) in self._fresh:
             env[t.value.id].fields[t.attr] = v
         elif isinstance(t, ast.Subscript) and isinstance(t.value, ast.Name) and t.value.id in env \
-                and isinstance(env[t.value.id], (dict, list)) and self.allow_loops:
-            env[t.value.id][self._eval(t.slice, env, self._cur_mod, None)] = v
+                and (isinstance(env[t.value.id], (dict, list)) or self._native_store(env[t.value.id])) and self.allow_loops:
+            self._store_item(env[t.value.id], self._index(t.slice, env), v)
         elif isinstance(t, ast.Subscript) and self.allow_loops and not isinstance(t.value, ast.Name):
             base = self._eval(t.value, env, self._cur_mod, None)
-            if not isinstance(base, (dict, list)):
+            if not isinstance(base, (dict, list)) and not self._native_store(base):
                 raise Unsupported('item assignment on ' + type(base).__name__)
-            base[self._eval(t.slice, env, self._cur_mod, None)] = v
+            self._store_item(base, self._index(t.slice, env), v)
         elif isinstance(t, ast.Subscript) and isinstance(t.value, ast.Name) and t.value.id not in env:
             # item store on a module-level container (e.g. a hand-written memo table): the container is evaluated once per Folder
             # (as at import time) and keeps its contents across the calls folded with this Folder - exactly like the running program
@@ -610,6 +890,22 @@ class Folder:
             base[self._eval(t.slice, env, self._cur_mod, None)] = v
         else:
             raise Unsupported('assignment to non-local in folded function')
+
+    @staticmethod
+    def _native_store(x) -> bool:
+        return getattr(x, '_sa_native', False) and hasattr(x, '__setitem__')
+
+    def _index(self, sl, env):
+        if isinstance(sl, ast.Slice):
+            return slice(*[self._eval(x, env, self._cur_mod, None) if x is not None else None for x in (sl.lower, sl.upper, sl.step)])
+        return self._eval(sl, env, self._cur_mod, None)
+
+    @staticmethod
+    def _store_item(base, k, v):
+        try:
+            base[k] = v
+        except (IndexError, KeyError, TypeError, ValueError) as ex:
+            raise FoldRaise(type(ex).__name__, str(ex))
 
     @staticmethod
     def _truth(v) -> bool:
@@ -698,6 +994,10 @@ class Folder:
                 if ck not in cache:
                     cache[ck] = self._eval(r[2], {}, r[1], None)
                 return cache[ck]
+            if r[0] == 'external' and r[1] == 'numpy' and self.numpy is not None:
+                return self.numpy.attr(r[2])
+            if r[0] == 'external' and r[1] in ('itertools', 'functools'):
+                return self._stdlib_hof(r[1], r[2])
             if r[0] == 'external' and r[1].split('.')[0] in PURE_MODULES:
                 import importlib
                 try:
@@ -842,9 +1142,12 @@ class Folder:
             return self._binop(e.op, self._eval(e.left, env, mod, ci), self._eval(e.right, env, mod, ci))
         if isinstance(e, ast.Compare):
             left = self._eval(e.left, env, mod, ci)
-            for op, c in zip(e.ops, e.comparators):
+            for k_, (op, c) in enumerate(zip(e.ops, e.comparators)):
                 right = self._eval(c, env, mod, ci)
-                if not self._cmp(op, left, right):
+                r_ = self._cmp(op, left, right)
+                if getattr(r_, '_sa_native', False) and len(e.ops) == 1:
+                    return r_       # a rich comparison that does not give a truth value (elementwise comparison of an array)
+                if not r_:
                     return False
                 left = right
             return True
@@ -863,9 +1166,13 @@ class Folder:
             if isinstance(e.slice, ast.Slice):
                 lo = self._eval(e.slice.lower, env, mod, ci) if e.slice.lower else None
                 hi = self._eval(e.slice.upper, env, mod, ci) if e.slice.upper else None
-                if e.slice.step is not None:
-                    raise Unsupported('slice step')
-                return base[lo:hi]
+                st_ = self._eval(e.slice.step, env, mod, ci) if e.slice.step is not None else None
+                if isinstance(base, (DV, EV, ClsRef)):
+                    raise Unsupported('slice of an object of the subject')
+                try:
+                    return base[lo:hi:st_]
+                except (TypeError, ValueError) as ex:
+                    raise FoldRaise(type(ex).__name__, str(ex))
             idx = self._eval(e.slice, env, mod, ci)
             if isinstance(base, DV):
                 c, fn = self._find(base.cls, '__getitem__')
@@ -888,29 +1195,37 @@ class Folder:
         if isinstance(e, ast.Lambda):
             return ('lambda', e, dict(env), mod, ci)
         if isinstance(e, (ast.ListComp, ast.SetComp, ast.GeneratorExp, ast.DictComp)) and self.allow_loops:
-            out = []
-
-            def rec(gi, env2):
-                if gi == len(e.generators):
-                    if isinstance(e, ast.DictComp):
-                        out.append((self._eval(e.key, env2, mod, ci), self._eval(e.value, env2, mod, ci)))
-                    else:
-                        out.append(self._eval(e.elt, env2, mod, ci))
-                    return
-                g = e.generators[gi]
+            def source(g, env2):
                 it = self._eval(g.iter, env2, mod, ci)
                 if isinstance(it, ClsRef) and it.cls.is_enum:
                     it = [EV(it.cls, n, v) for n, v in it.cls.enum_members().items()]
                 if isinstance(it, (dict, type({}.items()), type({}.keys()), type({}.values()))):
                     it = list(it)
-                if not isinstance(it, (list, tuple, range, str, frozenset, set)):
+                if getattr(it, '_sa_native', False) and hasattr(it, '__iter__'):
+                    it = list(it)
+                if not isinstance(it, (list, tuple, range, str, frozenset, set, LazyIter)):
                     raise Unsupported('comprehension over ' + type(it).__name__)
-                for x in (sorted(it, key=repr) if isinstance(it, (set, frozenset)) else it):
+                return sorted(it, key=repr) if isinstance(it, (set, frozenset)) else it
+
+            def rec(gi, env2, first=None):
+                if gi == len(e.generators):
+                    if isinstance(e, ast.DictComp):
+                        yield (self._eval(e.key, env2, mod, ci), self._eval(e.value, env2, mod, ci))
+                    else:
+                        yield self._eval(e.elt, env2, mod, ci)
+                    return
+                g = e.generators[gi]
+                it = first if first is not None else source(g, env2)
+                for x in self._iterate(it):
                     env3 = dict(env2)
                     self._assign(g.target, x, env3)
                     if all(self._truth(self._eval(c, env3, mod, ci)) for c in g.ifs):
-                        rec(gi + 1, env3)
-            rec(0, dict(env))
+                        yield from rec(gi + 1, env3)
+            if isinstance(e, ast.GeneratorExp):
+                # a generator expression: the outermost iterable is evaluated now, everything else when the items are asked for
+                env0 = dict(env)
+                return LazyIter(rec(0, env0, first=source(e.generators[0], env0)))
+            out = list(rec(0, dict(env)))
             if isinstance(e, ast.SetComp):
                 return set(out)
             if isinstance(e, ast.DictComp):
@@ -938,6 +1253,17 @@ class Folder:
                 env2[prm] = self._eval(dmap[prm], cenv, cmod, cci)
             else:
                 raise Unsupported(f'missing argument {prm} for nested function {node.name}')
+        is_gen = _GEN_CACHE.get(id(node))
+        if is_gen is None:
+            is_gen = _GEN_CACHE[id(node)] = any(isinstance(x, (ast.Yield, ast.YieldFrom)) for x in _own_nodes(node))
+        if is_gen:
+            def run_body(sink):
+                env2['__yield__'] = sink
+                self._block(node.body, env2, cmod, cci)
+            g = _ThreadGen(self, run_body)
+            if any(ast.unparse(x).split('.')[-1] == 'contextmanager' for x in node.decorator_list):
+                return _GenCM(g)
+            return LazyIter(g)
         try:
             self._block(node.body, env2, cmod, cci)
         except _Return as r:
@@ -950,6 +1276,19 @@ class Folder:
         if isinstance(v, tuple) and len(v) == 5 and v[0] == 'lambda':
             return lambda *a: self._call_value(v, list(a))
         return v
+
+    def _pycallable(self, v):
+        """A Python callable for any callable value of the subject (for map/filter/iter/itertools/sorted keys)."""
+        if v is None or (callable(v) and not isinstance(v, (Bound, ClsRef))):
+            return v
+        c = self._as_callable(v)
+        if callable(c) and not isinstance(c, (Bound, ClsRef)):
+            return c
+        if isinstance(v, tuple) and len(v) == 2 and v[0] == 'pyfunc':
+            return v[1]
+        if isinstance(v, (Bound, ClsRef)) or (isinstance(v, tuple) and v and v[0] in ('func', 'builtin', 'strmethod')):
+            return lambda *a, **k: self._apply(v, list(a), dict(k))
+        raise Unsupported('call of a non-callable value ' + repr(v)[:60])
 
     def _call_value(self, f, args):
         _, node, cenv, cmod, cci = f
@@ -985,6 +1324,10 @@ class Folder:
         f = self._eval(e.func, env, mod, ci)
         args = [self._eval(a, env, mod, ci) for a in e.args]
         kw = {k.arg: self._eval(k.value, env, mod, ci) for k in e.keywords}
+        return self._apply(f, args, kw, e)
+
+    def _apply(self, f, args, kw, e=None):
+        """Call the value `f` of the subject with evaluated arguments."""
         if isinstance(f, Bound):
             return self._call_bound(f, args, kw)
         if isinstance(f, ClsRef):
@@ -1060,15 +1403,19 @@ class Folder:
             if n == 'range':
                 return range(*args)
             if n == 'enumerate':
-                return list(enumerate(*args))
+                if args and isinstance(args[0], LazyIter):
+                    return LazyIter(enumerate(self._iterate(args[0]), *args[1:], **kw))
+                return list(enumerate(*args, **kw))
             if n in ('all', 'any'):
                 return (all if n == 'all' else any)(self._truth(x) for x in args[0])
             if n == 'zip':
+                if any(isinstance(a, LazyIter) for a in args):
+                    return LazyIter(zip(*[self._iterate(a) for a in args]))
                 return list(zip(*[list(a) for a in args]))
             if n == 'map':
-                fn_ = self._as_callable(args[0])
-                if isinstance(fn_, tuple):
-                    raise Unsupported('map over a non-lambda')
+                fn_ = self._pycallable(args[0])
+                if any(isinstance(a, LazyIter) for a in args[1:]):
+                    return LazyIter(fn_(*xs) for xs in zip(*[self._iterate(a) for a in args[1:]]))
                 return [fn_(*xs) for xs in zip(*[list(a) for a in args[1:]])]
             if n == 'print':
                 return None
@@ -1097,20 +1444,39 @@ class Folder:
                 raise Unsupported('setattr on a non-object')
             if n == 'iter':
                 if len(args) == 2:
-                    fn_ = self._as_callable(args[0])
-                    out_ = []
-                    while True:
-                        self.steps += 1
-                        if self.steps > self.max_steps:
-                            raise Unsupported('step limit')
-                        v_ = fn_() if callable(fn_) else self._call_value(fn_, [])
-                        if v_ == args[1]:
-                            return out_
-                        out_.append(v_)
+                    fn_ = self._pycallable(args[0])
+                    sentinel_ = args[1]
+
+                    def calls():
+                        while True:
+                            self.steps += 1
+                            if self.steps > self.max_steps:
+                                raise Unsupported('step limit')
+                            v_ = fn_()
+                            if self._cmp(ast.Eq(), v_, sentinel_):
+                                return
+                            yield v_
+                    return LazyIter(calls())
                 it_ = args[0]
-                if getattr(it_, '_sa_native', False) and hasattr(it_, '__iter__'):
-                    return list(it_)
-                return list(it_)
+                if isinstance(it_, LazyIter):
+                    return it_
+                if isinstance(it_, ClsRef) and it_.cls.is_enum:
+                    it_ = [EV(it_.cls, k, v) for k, v in it_.cls.enum_members().items()]
+                if isinstance(it_, (set, frozenset)):
+                    it_ = sorted(it_, key=repr)
+                return LazyIter(iter(list(it_)))
+            if n == 'next':
+                if not isinstance(args[0], LazyIter):
+                    raise Unsupported('next() of ' + type(args[0]).__name__)
+                self.steps += 1
+                if self.steps > self.max_steps:
+                    raise Unsupported('step limit')
+                try:
+                    return next(args[0])
+                except StopIteration:
+                    if len(args) > 1:
+                        return args[1]
+                    raise FoldRaise('StopIteration', '')
             if n == 'divmod':
                 return divmod(*args)
             if n == 'round':
@@ -1118,7 +1484,9 @@ class Folder:
             if n == 'float':
                 return float(*args)
             if n == 'filter':
-                fn_ = self._as_callable(args[0])
+                fn_ = self._pycallable(args[0])
+                if isinstance(args[1], LazyIter):
+                    return LazyIter(x for x in self._iterate(args[1]) if self._truth(fn_(x) if fn_ is not None else x))
                 return [x for x in args[1] if self._truth(fn_(x) if fn_ is not None else x)]
             if n == 'isinstance':
                 v, c = args
@@ -1126,7 +1494,7 @@ class Folder:
                     return isinstance(v, (EV, DV)) and c.cls in self.repo.mro(v.cls)
                 raise Unsupported('isinstance target')
             raise Unsupported('builtin ' + n)
-        raise Unsupported('call of ' + ast.unparse(e.func))
+        raise Unsupported('call of ' + (ast.unparse(e.func) if e is not None else repr(f)[:60]))
 
 
 def table(folder: Folder, domain, fn) -> Dict[Any, Any]:
